@@ -206,19 +206,23 @@ func (t *Tombstoner) TombstoneStats() TombstoneStat {
 	}
 	t.mu.RUnlock()
 
+	// Look at the file and remember the answer under one lock: a commit that renames the
+	// tombstone file into place in between would otherwise be followed by the older answer.
+	t.mu.Lock()
+	defer t.mu.Unlock()
+	if t.statsLoaded {
+		return t.tombstoneStats
+	}
+
 	stat, err := os.Stat(t.tombstonePath())
 	if err != nil {
-		t.mu.Lock()
 		// The file doesn't exist so record that we tried to load it so
 		// we don't continue to keep trying.  This is the common case.
 		t.statsLoaded = os.IsNotExist(err)
 		t.tombstoneStats.TombstoneExists = false
-		stats := t.tombstoneStats
-		t.mu.Unlock()
-		return stats
+		return t.tombstoneStats
 	}
 
-	t.mu.Lock()
 	t.tombstoneStats = TombstoneStat{
 		TombstoneExists: true,
 		Path:            t.tombstonePath(),
@@ -226,10 +230,7 @@ func (t *Tombstoner) TombstoneStats() TombstoneStat {
 		Size:            uint32(stat.Size()),
 	}
 	t.statsLoaded = true
-	stats := t.tombstoneStats
-	t.mu.Unlock()
-
-	return stats
+	return t.tombstoneStats
 }
 
 // Walk calls fn for every Tombstone under the Tombstoner.
